@@ -16,7 +16,7 @@ FUNCTIONS = [
 ]
 BOUNDS = ("One call from an arbitrary pre-position with all seven bounds configured. Cell grid: "
           "every call shape that emits a bounded quantity (46) x distance mode x focus axis is "
-          "known/unknown; plus move hooks that replace the parameters (new dict / same dict). "
+          "known/unknown x the other two axes known/unknown; plus move hooks that replace the parameters (new dict / same dict). "
           "Solver over: every range (any min<max), the pre-coordinate of the focus axis, all "
           "numeric arguments (reals, NaN, +-inf) and the F/S values a hook returns. Oracle: if "
           "anything was emitted, every F, S, T and temperature word is inside its range and the "
@@ -108,9 +108,11 @@ def _check_output(step_name, rec, pre, rng, detail_ctx):
 def _ranges(axis, alo, ahi, flo, fhi, plo, phi, tlo, thi, nlo, nhi):
     axes = {a: (-1000.0, 1000.0) for a in "XYZ"}
     axes[axis] = (alo, ahi)
+    # three different temperature ranges derived from one symbolic range (a mix-up between the
+    # bed / hotend / chamber tables must be visible)
     return {"axes": axes, "feed-rate": (flo, fhi), "tool-power": (plo, phi),
-            "bed-temperature": (tlo, thi), "hotend-temperature": (tlo, thi),
-            "chamber-temperature": (tlo, thi), "tool-number": (nlo, nhi)}
+            "bed-temperature": (tlo, thi), "hotend-temperature": (tlo + 1000, thi + 1000),
+            "chamber-temperature": (tlo - 1000, thi - 1000), "tool-number": (nlo, nhi)}
 
 
 def _bounds_from(rng):
@@ -126,7 +128,7 @@ def _focus_axis(step_name):
     return "X"
 
 
-def _make(step, rel, known):
+def _make(step, rel, known, others_known=True):
     axis = _focus_axis(step.name)
 
     def core(f, n, p, alo, ahi, flo, fhi, plo, phi, tlo, thi, nlo, nhi):
@@ -141,7 +143,7 @@ def _make(step, rel, known):
             assume(k >= -2)
             assume(k <= 120)
         rng = _ranges(axis, alo, ahi, flo, fhi, plo, phi, tlo, thi, nlo, nhi)
-        pos = {"X": 1.0, "Y": 2.0, "Z": 3.0}
+        pos = {"X": 1.0, "Y": 2.0, "Z": 3.0} if others_known else {"X": None, "Y": None, "Z": None}
         pos[axis] = p if known else None
         pre = mkpre(pos=(pos["X"], pos["Y"], pos["Z"]), relative=rel, bounds=_bounds_from(rng))
         g, rec = prepare(pre)
@@ -247,6 +249,10 @@ def cells(tier):
                 cname = f"{name}|{'rel' if rel else 'abs'}|axis-{'known' if known else 'unknown'}"
                 out.append(Cell(cname, _make(step, rel, known), budget_s=budget,
                                 entry=f"GCodeBuilder.{name.split(':')[0].split('(')[0]}"))
+                if step.group == "motion" and known and (tier != "quick" or "(x)" in name or "(y,S)" in name):
+                    out.append(Cell(cname + "|other-axes-unknown", _make(step, rel, True, False),
+                                    budget_s=budget,
+                                    entry=f"GCodeBuilder.{name.split(':')[0].split('(')[0]}"))
     for rel in (False, True):
         out.append(Cell(f"trace:parametric|{'rel' if rel else 'abs'}", _make_trace(rel), budget_s=budget,
                         entry="PathTracer.parametric (emission)"))
